@@ -26,6 +26,11 @@ func init() {
 		Gen: func(rt *rapid.T, tier string) any {
 			c := &HistCase{Start: genTreeText(rt, "t", 3, 12, true)}
 			c.Ops = genOps(rt, c15Ops, 1, 20)
+			if rapid.IntRange(0, 1499).Draw(rt, "big") == 0 {
+				// thousands of tips, just above round numbers where code paths meant for "large" inputs begin: copy step only
+				c.Start = bigTreeText(int64(rapid.IntRange(1, 1<<30).Draw(rt, "bigseed")), rapid.SampledFrom([]int{1001, 1025, 2049, 5001}).Draw(rt, "bigsize"), rapid.Bool().Draw(rt, "bigrooted"))
+				c.Ops = nil
+			}
 			for range c.Ops {
 				c.Who = append(c.Who, rapid.IntRange(0, 1).Draw(rt, "who"))
 			}
@@ -228,6 +233,21 @@ func execC15(t *testing.T, cc any, o *Outcome) {
 		}
 	})
 	if !ok || len(o.Viols) > 0 || cp == nil {
+		return
+	}
+	if len(c.Start) > 20000 {
+		o.Probe("copy-of-a-tree-with-thousands-of-tips")
+		if c.Copy == "subtree" {
+			// the copied clade, written by the original and by the copy
+			in := innerNodesOf(orig, 3, false)
+			if len(in) > 0 {
+				want, err := ParseRef(orig.Newick())
+				got, err2 := ParseRef(cp.Newick())
+				if err == nil && err2 == nil && len(got.Tips()) > len(want.Tips()) {
+					o.Fail("subtree:tips", "SubTree of a %d-tip tree has %d tips", len(want.Tips()), len(got.Tips()))
+				}
+			}
+		}
 		return
 	}
 	parties := []*histState{{t: orig, text: orig.Newick(), freshIndex: c.Index}, {t: cp, text: cp.Newick(), freshIndex: c.Index && c.Copy == "clone"}}
